@@ -180,15 +180,28 @@ class Target:
         return False
 
     def followup(self):
+        """A valid exchange on the same client - itself under a (generous) step budget:
+        what an earlier datagram left behind must not make the NEXT request spin."""
         self.w.seam.reset(budget=30)
-        try:
-            if self.mode == "walk":
-                got = [(rig.oid_t(vb.oid), rig.to_tuple(vb.value)) for vb in self.call()]
-                return got == [(k, DB[k]) for k in K[:3]]
-            got = [rig.to_tuple(v) for v in drive(self.w.client.multiget([OID(k) for k in K[:4]]))]
-            return got == [DB[k] for k in K[:4]]
-        except Exception:  # noqa: BLE001
-            return False
+
+        def inner():
+            try:
+                if self.mode == "walk":
+                    got = [(rig.oid_t(vb.oid), rig.to_tuple(vb.value)) for vb in self.call()]
+                    return got == [(k, DB[k]) for k in K[:3]]
+                got = [rig.to_tuple(v) for v in drive(self.w.client.multiget([OID(k) for k in K[:4]]))]
+                return got == [DB[k] for k in K[:4]]
+            except budget.OverBudget:
+                raise
+            except Exception:  # noqa: BLE001
+                return False
+
+        if Target.A is None:
+            return inner()
+        kind, val, _ = budget.run_budgeted(inner, 4 * self.budget_for(2000), light=True)
+        if kind == "over":
+            self.followup_over = True
+        return kind == "ok" and bool(val)
 
     # budgets are installed by calibrate()
     A = B = C = D = None
@@ -387,6 +400,54 @@ def usm_field_edits(t9):
                 pass
 
 
+BIG_INTS = (0, -1, 2**31 - 1, 2**31, 2**32, -(2**31), 2**63, 2**64, 2**70, -(2**70), 2**200, 2**2000)
+
+
+def discovery_field_edits(t):
+    """Well-formed discovery replies (unauthenticated Reports, which the client takes on
+    trust) whose fields take extreme values: what is stored from them is used by the
+    request that follows, under the same budget."""
+    m = t.msg
+    base = {k: v for k, v in m["usm"].items() if not k.startswith("_")}
+    sc = m["scoped"]
+
+    def build(usm=None, pdu=None, ctx=None, **hdr):
+        out = {"msg_id": m["msg_id"], "max_size": m["max_size"], "flags": m["flags"], "sec_model": 3, "usm": usm or dict(base),
+               "scoped": (ctx[0] if ctx else sc["ctx_engine"], ctx[1] if ctx else sc["ctx_name"], pdu or sc["pdu"])}
+        out.update(hdr)
+        return ber.enc_v3_message(out)
+
+    for field in ("boots", "time"):
+        for v in BIG_INTS:
+            yield "disco-%s-%s" % (field, v if abs(v) < 2**64 else "2^%d" % v.bit_length()), build(usm=dict(base, **{field: v}))
+    for v in BIG_INTS:
+        yield "disco-boots+time-%s" % (v if abs(v) < 2**64 else "2^%d" % v.bit_length()), build(usm=dict(base, boots=v, time=v))
+    for field in ("engine_id", "user", "auth", "priv"):
+        for n in (0, 1, 4, 5, 12, 32, 33, 255, 1000, 60000):
+            yield "disco-%s-len%d" % (field, n), build(usm=dict(base, **{field: bytes([0x80]) + bytes([0x5A]) * (n - 1) if n else b""}))
+    for key in ("msg_id", "max_size", "sec_model"):
+        for v in BIG_INTS:
+            if key == "msg_id":
+                continue  # another message id is not this probe's reply (C12)
+            try:
+                yield "disco-hdr-%s-%s" % (key, v if abs(v) < 2**64 else "2^%d" % v.bit_length()), build(**{key: v})
+            except (ValueError, OverflowError):
+                pass
+    for flags in (0, 1, 2, 3, 4, 5, 7, 0xFF):
+        yield "disco-flags-%d" % flags, build(flags=flags)
+    pdu = dict(sc["pdu"])
+    for v in BIG_INTS:
+        p2 = dict(pdu, varbinds=[(o, ("c32", v) if 0 <= v < 2**32 else ("int", v)) for o, _ in pdu["varbinds"]] or pdu["varbinds"])
+        yield "disco-counter-%s" % (v if abs(v) < 2**64 else "2^%d" % v.bit_length()), build(pdu=p2)
+        yield "disco-request-id-%s" % (v if abs(v) < 2**64 else "2^%d" % v.bit_length()), build(pdu=dict(pdu, request_id=v))
+        yield "disco-error-index-%s" % (v if abs(v) < 2**64 else "2^%d" % v.bit_length()), build(pdu=dict(pdu, error_index=v))
+    for n in (0, 1, 5, 32, 1000):
+        yield "disco-ctx-engine-len%d" % n, build(ctx=(b"\x80" * n, sc["ctx_name"]))
+        yield "disco-ctx-name-len%d" % n, build(ctx=(sc["ctx_engine"], b"n" * n))
+    yield "disco-no-bindings", build(pdu=dict(pdu, varbinds=[]))
+    yield "disco-many-bindings", build(pdu=dict(pdu, varbinds=list(pdu["varbinds"]) * 200))
+
+
 def bombs(rng, quick):
     sizes = (64, 1000, 20000) if quick else (64, 1000, 20000, 65507)
     for size in sizes:
@@ -447,7 +508,14 @@ def run_case(R, t, kind, pos, data, variant):
         # authenticated: C12/C09 own what may be trusted).
         R.mon["discovery_accepted_other_engine_id"] += 1
     elif not t.followup():
-        R.violation(case, "the client is no longer usable: a valid follow-up request failed after this datagram (%s)" % outcome, None)
+        spun = getattr(t, "followup_over", False)
+        t.followup_over = False
+        R.violation(case, "the client is no longer usable: a valid follow-up request %s after this datagram (%s)" % ("exceeded its step budget (still running)" if spun else "failed", outcome), None)
+        if spun and t.mode != "trap":
+            # do not keep using a client that spins
+            t.w = World(t.level, DB)
+            if t.mode != "discovery":
+                t.w.prime()
     else:
         R.mon["followup_ok"] += 1
     if R.evaluations % 1201 == 7 and len(data) <= 400:
@@ -499,6 +567,9 @@ def run(R):
                     yield t, "field-" + name, 0, data, "structural"
                 for fields in usm_field_edits(t9):
                     yield t, "field-" + fields[0], 0, fields[1], "structural"
+            if mode == "discovery":
+                for name, data in discovery_field_edits(t):
+                    yield t, "field-" + name, 0, data, "structural"
             variants = [("outer", lambda d: d)]
             if getattr(t, "user", None) is not None and t.msg["flags"] & 1:
                 variants.append(("resigned", t.resign))
